@@ -19,15 +19,19 @@ const vArgAlpha = ".[]-09:!*a"
 
 func vArgLen() int {
 	if vTier() == 1 {
-		return 5
+		return 4
 	}
-	return 4
+	return 5
 }
 
 // (a) query methods with arbitrary argument strings on Maps that may contain empty keys
 func H_C15_args() {
 	vResetDecOpts()
-	m := Map(vNondetMap(vSpec{Depth: 2, Width: 2, Kinds: "mlsn", KeyAlpha: "a0", KeyMin: 0, KeyMax: 1, StrAlpha: "x", StrMax: 0}))
+	w := 1
+	if vTier() == 1 {
+		w = 2
+	}
+	m := Map(vNondetMap(vSpec{Depth: 2, Width: w, Kinds: "mls", KeyAlpha: "a0", KeyMin: 0, KeyMax: 1, StrAlpha: "x", StrMax: 0}))
 	arg := vNondetString(0, vArgLen(), vArgAlpha)
 	which := vChoose(8)
 	panicked := vCatch(func() {
@@ -86,7 +90,11 @@ func H_C15_args_index() {
 // (a) update methods
 func H_C15_args_update() {
 	vResetDecOpts()
-	m := Map(vNondetMap(vSpec{Depth: 2, Width: 2, Kinds: "mlsn", KeyAlpha: "a0", KeyMin: 0, KeyMax: 1, StrAlpha: "x", StrMax: 0}))
+	w := 1
+	if vTier() == 1 {
+		w = 2
+	}
+	m := Map(vNondetMap(vSpec{Depth: 2, Width: w, Kinds: "mls", KeyAlpha: "a0", KeyMin: 0, KeyMax: 1, StrAlpha: "x", StrMax: 0}))
 	arg := vNondetString(0, vArgLen(), vArgAlpha)
 	which := vChoose(7)
 	panicked := vCatch(func() {
